@@ -1,4 +1,4 @@
-import BB.Proofs.SyncerDurable
+import BB.Proofs.SyncerLive
 /-!
 # C07 - persistence never stalls
 
@@ -253,5 +253,247 @@ theorem C07_free_not_durable (hf : free.Nodup) (h : Reachable c free oldest t0 s
 theorem C07_blocks_accounted (hf : free.Nodup) (h : Reachable c free oldest t0 s) :
     s.freedTotal + s.bl.toRelease.length = s.bl.totalReleased :=
   (inv3_reachable hf h).freed
+
+/-- Blocks are handed back to the allocator by `NotifyPersistentStateWritten` only - not before
+the state write returned: every other step leaves the free list as it was or shorter. -/
+theorem C07_no_early_free (hf : free.Nodup) (h : Reachable c free oldest t0 s) {a : Act} {s' : State}
+    (hs : step c s a = some s') (hp : a ≠ .pW .notify) (hr : a ≠ .rW .notify) :
+    ∀ id, id ∈ s'.bl.free → id ∈ s.bl.free :=
+  free_subset_of_Step (inv1_reachable hf h) (step_Step hs) hp hr
+
+/-! ## Progress -/
+
+/-- Under every interleaving: while unsynchronised data exists and the put loop has not yet reached
+`NotifySyncStarting`, its own next step is enabled and takes it strictly closer (rank), the pending
+work staying pending - or it is waiting for its timer, which was armed at most one interval ago for
+at most one interval.  No step of another process can disable this (the statement holds in every
+reachable state).  With weak fairness for the put loop this is the bounded wait. -/
+theorem C07_put_enabled (hf : free.Nodup) (h : Reachable c free oldest t0 s)
+    (hw : s.bl.syncedE < s.bl.nE) {a : Act} (ha : putNext s.p = some a) :
+    (∃ s', step c s a = some s' ∧ s'.p.rank < s.p.rank ∧ s'.bl.syncedE < s'.bl.nE) ∨
+    (∃ d ar, s.p = .timer d ar ∧ s.now < d ∧ d ≤ ar + c.minInt ∧ ar ≤ s.now) := by
+  cases hp : s.p with
+  | get =>
+    rw [hp] at ha; simp [putNext] at ha; subst ha
+    exact Or.inl ⟨_, step_pGet hp, by simp [PPc.rank], hw⟩
+  | poll g =>
+    rw [hp] at ha; simp [putNext] at ha; subst ha
+    have hr := C07_put_waiter_wakes hf h (Or.inl hp) hw
+    exact Or.inl ⟨_, step_pPoll_ready hp hr, by simp [PPc.rank], hw⟩
+  | wait g =>
+    rw [hp] at ha; simp [putNext] at ha; subst ha
+    have hr := C07_put_waiter_wakes hf h (Or.inr hp) hw
+    exact Or.inl ⟨_, step_pWake hp hr, by simp [PPc.rank], hw⟩
+  | timer d ar =>
+    rw [hp] at ha; simp [putNext] at ha; subst ha
+    by_cases hd : s.now < d
+    · obtain ⟨h1, h2, _⟩ := (inv2_reachable h).timer d ar hp
+      exact Or.inr ⟨d, ar, rfl, hd, h2, h1⟩
+    · exact Or.inl ⟨_, step_pFire hp (by omega), by simp [PPc.rank], hw⟩
+  | lock kg =>
+    rw [hp] at ha; simp [putNext] at ha; subst ha
+    obtain ⟨s', h1, h2, _, _⟩ := @step_pStart c s kg hp
+    refine Or.inl ⟨s', h1, by rw [h2]; simp [PPc.rank], ?_⟩
+    have hst := step_Step h1
+    cases hst with
+    | pStart kg' hp' => simpa [BL.syncStarting, BL.nE] using hw
+  | sync kg f => rw [hp] at ha; simp [putNext] at ha
+  | syncSleep kg f d => rw [hp] at ha; simp [putNext] at ha
+  | synced kg f => rw [hp] at ha; simp [putNext] at ha
+  | write kg w => rw [hp] at ha; simp [putNext] at ha
+  | done => rw [hp] at ha; simp [putNext] at ha
+
+/-- Bounded wait, constructively: from any reachable state with pending work in which the put loop
+has not yet reached `NotifySyncStarting` (and is not being shut down), at most four steps of its own
+plus one advance of the virtual clock by at most one `minimumEpochInterval` take it to
+`NotifySyncStarting` with a target covering every epoch existing then.  (That the scheduler lets
+these steps happen - weak fairness - and that time passes are the hypotheses this statement makes
+explicit by exhibiting the schedule; `C07_put_enabled` shows no other process can take the
+enabledness away.) -/
+theorem C07_bounded_wait (hf : free.Nodup) (h : Reachable c free oldest t0 s)
+    (hw : s.bl.syncedE < s.bl.nE) (hp : s.p = .get ∨ (∃ g, s.p = .poll g) ∨ (∃ g, s.p = .wait g) ∨
+      (∃ d a, s.p = .timer d a) ∨ s.p = .lock true) :
+    ∃ (as : List Act) (dt : Nat) (s' : State), run c s as = some s' ∧ as.length ≤ 5 ∧ dt ≤ c.minInt ∧
+      s'.now = s.now + dt ∧ s'.p = .sync true false ∧ ∀ e, e ∈ s.acked → e < s'.target := by
+  have i2 := inv2_reachable h
+  have i3 := inv3_reachable hf h
+  -- from an armed timer
+  have fromTimer : ∀ (s1 : State), Reachable c free oldest t0 s1 → ∀ d a, s1.p = .timer d a →
+      ∃ s', run c s1 [.tick (d - s1.now), .pFire, .pStart] = some s' ∧ d - s1.now ≤ c.minInt ∧
+        s'.now = s1.now + (d - s1.now) ∧ s'.p = .sync true false ∧ s'.target = s1.bl.oldest + s1.bl.nE := by
+    intro s1 h1 d a hp1
+    obtain ⟨s', hr, hp', hn, ht⟩ := @drive_timer c s1 d a hp1
+    obtain ⟨t1, t2, _⟩ := (inv2_reachable h1).timer d a hp1
+    exact ⟨s', hr, by omega, hn, hp', ht⟩
+  have ackLt : ∀ e, e ∈ s.acked → e < s.bl.oldest + s.bl.nE := i3.acked
+  rcases hp with hp | ⟨g, hp⟩ | ⟨g, hp⟩ | ⟨d, a, hp⟩ | hp
+  · -- get: GetBlockPutWakeup, poll (ready), timer
+    have hs1 := @step_pGet c s hp
+    have hr1 : Reachable c free oldest t0 { s with p := .poll s.bl.putCh.gen } := Reachable.step _ h hs1
+    have hready := C07_put_waiter_wakes hf hr1 (Or.inl rfl) hw
+    have hs2 := @step_pPoll_ready c { s with p := .poll s.bl.putCh.gen } _ rfl hready
+    have hr2 := Reachable.step _ hr1 hs2
+    obtain ⟨s', hrun, hdt, hn, hp', ht⟩ := fromTimer _ hr2 _ _ rfl
+    exact ⟨_, _, s', run_cons hs1 (run_cons hs2 hrun), by simp, hdt, hn, hp', by rw [ht]; exact ackLt⟩
+  · have hready := C07_put_waiter_wakes hf h (Or.inl hp) hw
+    have hs2 := @step_pPoll_ready c s g hp hready
+    have hr2 := Reachable.step _ h hs2
+    obtain ⟨s', hrun, hdt, hn, hp', ht⟩ := fromTimer _ hr2 _ _ rfl
+    exact ⟨_, _, s', run_cons hs2 hrun, by simp, hdt, hn, hp', by rw [ht]; exact ackLt⟩
+  · have hready := C07_put_waiter_wakes hf h (Or.inr hp) hw
+    have hs2 := @step_pWake c s g hp hready
+    have hr2 := Reachable.step _ h hs2
+    obtain ⟨s', hrun, hdt, hn, hp', ht⟩ := fromTimer _ hr2 _ _ rfl
+    exact ⟨_, _, s', run_cons hs2 hrun, by simp, hdt, hn, hp', by rw [ht]; exact ackLt⟩
+  · obtain ⟨s', hrun, hdt, hn, hp', ht⟩ := fromTimer s h d a hp
+    exact ⟨_, _, s', hrun, by simp, hdt, hn, hp', by rw [ht]; exact ackLt⟩
+  · obtain ⟨s', h1, h2, h3, h4⟩ := @step_pStart c s true hp
+    exact ⟨[.pStart], 0, s', run_cons h1 rfl, by simp, Nat.zero_le _, by simpa using h3, h2, by rw [h4]; exact ackLt⟩
+
+/-- `storeLock` is only ever held across one `WritePersistentState` call and the lock region that
+follows it: a loop waiting for the lock waits for one collaborator call of the other loop, whose
+return (either way) and `NotifyPersistentStateWritten` are always enabled. -/
+theorem C07_lock_holder_proceeds (hf : free.Nodup) (h : Reachable c free oldest t0 s)
+    (hl : s.storeLocked = true) :
+    (∃ kg snap, s.p = .write kg (.writing snap) ∧ (step c s (.pW (.ret true))).isSome ∧
+        (step c s (.pW (.ret false))).isSome) ∨
+    (∃ kg, s.p = .write kg .written ∧ (step c s (.pW .notify)).isSome) ∨
+    (∃ snap, s.r = .write (.writing snap) ∧ (step c s (.rW (.ret true))).isSome ∧
+        (step c s (.rW (.ret false))).isSome) ∨
+    (s.r = .write .written ∧ (step c s (.rW .notify)).isSome) := by
+  have i1 := inv1_reachable hf h
+  have hlk := i1.lock
+  rw [hl] at hlk
+  have : s.p.holds = true ∨ s.r.holds = true := by
+    cases hp : s.p.holds <;> cases hr : s.r.holds <;> simp [hp, hr] at hlk ⊢
+  rcases this with hh | hh
+  · cases hp : s.p with
+    | write kg w =>
+      cases w with
+      | writing snap => exact Or.inl ⟨kg, snap, rfl, by simp [step, hp, wStep], by simp [step, hp, wStep]⟩
+      | written => exact Or.inr (Or.inl ⟨kg, rfl, by simp [step, hp, wStep]⟩)
+      | idle => rw [hp] at hh; simp [PPc.holds, WPc.holds] at hh
+      | sleep d => rw [hp] at hh; simp [PPc.holds, WPc.holds] at hh
+    | _ => rw [hp] at hh; simp [PPc.holds] at hh
+  · cases hr : s.r with
+    | write w =>
+      cases w with
+      | writing snap => exact Or.inr (Or.inr (Or.inl ⟨snap, rfl, by simp [step, hr, wStep], by simp [step, hr, wStep]⟩))
+      | written => exact Or.inr (Or.inr (Or.inr ⟨rfl, by simp [step, hr, wStep]⟩))
+      | idle => rw [hr] at hh; simp [RPc.holds, WPc.holds] at hh
+      | sleep d => rw [hr] at hh; simp [RPc.holds, WPc.holds] at hh
+    | _ => rw [hr] at hh; simp [RPc.holds] at hh
+
+/-! ## Retries -/
+
+/-- A failed data sync marks nothing as synchronised and is followed by a sleep of
+`errorRetryInterval` ... -/
+theorem C07_retry_sync {s s' : State} (hs : step c s (.pData false) = some s') :
+    ∃ kg f, s.p = .sync kg f ∧ s'.p = .syncSleep kg f (s.now + c.retryInt) ∧ s'.bl = s.bl ∧
+      s'.durable = s.durable ∧ s'.freedTotal = s.freedTotal ∧ s'.syncOk = s.syncOk := by
+  have hst := step_Step hs
+  cases hst with
+  | pDataFail kg f hp => exact ⟨kg, f, hp, rfl, rfl, rfl, rfl, rfl⟩
+
+/-- ... after which the same `dataSyncer()` call is made again. -/
+theorem C07_retry_sync_again {s : State} {kg f : Bool} {d : Nat} (hp : s.p = .syncSleep kg f d)
+    (hd : d ≤ s.now) : ∃ s', step c s .pRetry = some s' ∧ s'.p = .sync kg f ∧ s'.bl = s.bl := by
+  have : ¬ s.now < d := by omega
+  exact ⟨{ s with p := .sync kg f }, by simp [step, hp, this], rfl, rfl⟩
+
+/-- A failed state write (put loop) releases nothing, leaves the last good state file in place,
+gives up `storeLock` and sleeps for `errorRetryInterval` ... -/
+theorem C07_retry_write_put {s s' : State} (hs : step c s (.pW (.ret false)) = some s') :
+    ∃ kg snap, s.p = .write kg (.writing snap) ∧ s'.p = .write kg (.sleep (s.now + c.retryInt)) ∧
+      s'.bl = s.bl ∧ s'.durable = s.durable ∧ s'.freedTotal = s.freedTotal ∧ s'.storeLocked = false := by
+  have hst := step_Step hs
+  cases hst with
+  | pW kg w a s1 w' fin hp hw =>
+    cases hw with
+    | retFail snap => exact ⟨kg, snap, hp, rfl, rfl, rfl, rfl, rfl⟩
+
+/-- ... likewise for the release loop ... -/
+theorem C07_retry_write_release {s s' : State} (hs : step c s (.rW (.ret false)) = some s') :
+    ∃ snap, s.r = .write (.writing snap) ∧ s'.r = .write (.sleep (s.now + c.retryInt)) ∧
+      s'.bl = s.bl ∧ s'.durable = s.durable ∧ s'.freedTotal = s.freedTotal ∧ s'.storeLocked = false := by
+  have hst := step_Step hs
+  cases hst with
+  | rW w a s1 w' fin hr hw =>
+    cases hw with
+    | retFail snap => exact ⟨snap, hr, rfl, rfl, rfl, rfl, rfl⟩
+
+/-- ... after which `writePersistentState` starts over (fresh `GetPersistentState`, new write). -/
+theorem C07_retry_write_again {s : State} {d : Nat} (hd : d ≤ s.now) :
+    (∀ kg, s.p = .write kg (.sleep d) → ∃ s', step c s (.pW .wake) = some s' ∧ s'.p = .write kg .idle ∧ s'.bl = s.bl) ∧
+    (s.r = .write (.sleep d) → ∃ s', step c s (.rW .wake) = some s' ∧ s'.r = .write .idle ∧ s'.bl = s.bl) := by
+  have : ¬ s.now < d := by omega
+  constructor
+  · intro kg hp
+    exact ⟨{ s with p := .write kg .idle }, by simp [step, hp, wStep, this], rfl, rfl⟩
+  · intro hr
+    exact ⟨{ s with r := .write .idle }, by simp [step, hr, wStep, this], rfl, rfl⟩
+
+/-! ## The hypotheses are satisfiable (concrete schedules of the same `step`) -/
+
+namespace Ex
+def cfg : Cfg := ⟨100, 30⟩
+def s0 : State := init [0, 1, 2] 7 0
+/-- Run a schedule from the initial state and test the final state. -/
+def chk (as : List Act) (f : State → Bool) : Bool :=
+  match run cfg s0 as with
+  | some s => f s
+  | none => false
+
+theorem s0_reachable : Reachable cfg [0, 1, 2] 7 0 s0 := Reachable.init
+theorem free_nodup : ([0, 1, 2] : List Nat).Nodup := by decide
+
+/-- put loop parked on its channel, then an upload is acknowledged: pending work, waiter on a
+closed channel (`C07_put_signalled`, `C07_put_waiter_wakes`, `C07_put_enabled`, `C07_bounded_wait`). -/
+example : chk [.pGet, .pPoll, .push, .fin 0 10]
+    (fun s => decide (s.bl.syncedE < s.bl.nE) && (s.p == .wait 0) && s.bl.putCh.ready 0 &&
+      (s.acked == [7])) = true := by decide
+
+/-- a pop while the release loop waits (`C07_release_signalled`, `C07_release_waiter_wakes`). -/
+example : chk [.rGet, .push, .pop]
+    (fun s => (s.bl.toRelease == [0]) && (s.r == .wait 0) && s.bl.relCh.ready 0) = true := by decide
+
+/-- a replaced channel: after a full iteration the put channel is generation 1 and generation 0 is closed
+(`C07_replaced_closed`, `C07_no_double_close` with a non-trivial history). -/
+def iteration : List Act :=
+  [.push, .fin 0 10, .pGet, .pPoll, .tick 100, .pFire, .pStart, .pData false, .tick 30, .pRetry, .pData true,
+   .pCompleted, .pW .get, .pW (.ret false), .tick 30, .pW .wake, .pW .get, .pW (.ret true)]
+
+/-- ... the iteration with one failed sync and one failed write reaches the point where
+`C07_iteration_covers` applies: the notify step is enabled, the data sync succeeded, and the state
+written covers epoch 7 (bound 8 = target). -/
+example : chk iteration
+    (fun s => (step cfg s (.pW .notify)).isSome && s.syncOk && (s.target == 8) && (s.durable.bound == 8) &&
+      (s.durable.ids == [0])) = true := by decide
+
+example : chk (iteration ++ [.pW .notify])
+    (fun s => (s.bl.putCh.gen == 1) && s.bl.putCh.ready 0 && s.bl.putCh.blocking && (s.p == .get)) = true := by decide
+
+/-- two consecutive running iterations (`C07_interval_consecutive`): stamps 100 and 230. -/
+example : chk (iteration ++ [.pW .notify, .fin 0 20, .pGet, .pPoll, .tick 70, .pFire, .pStart])
+    (fun s => s.starts == [(230, 230), (100, 100)]) = true := by decide
+
+/-- release iteration (`C07_release_iteration_frees`): block 0 popped, state without it written, notify enabled. -/
+example : chk [.rGet, .push, .pop, .rWake, .rW .get, .rW (.ret true)]
+    (fun s => (step cfg s (.rW .notify)).isSome && (s.goal == 1) && (s.bl.toRelease.take s.bl.releasing == [0]) &&
+      (s.durable.ids == [])) = true := by decide
+
+example : chk [.rGet, .push, .pop, .rWake, .rW .get, .rW (.ret true), .rW .notify]
+    (fun s => (s.bl.free == [1, 2, 0]) && (s.freedTotal == 1) && (s.r == .get)) = true := by decide
+
+/-- both loops reach for `storeLock` (`C07_lock_holder_proceeds`): the release loop holds it, the put loop is refused. -/
+example : chk [.push, .fin 0 10, .pGet, .pPoll, .tick 100, .pFire, .pStart, .pData true, .pCompleted,
+      .push, .pop, .rGet, .rWake, .rW .get]
+    (fun s => s.storeLocked && (step cfg s (.pW .get)).isNone && (step cfg s (.rW (.ret true))).isSome) = true := by decide
+
+/-- shutdown: cancel while waiting gives two syncs, the second final (`closedForWriting`). -/
+example : chk [.pGet, .pPoll, .cancel, .pCancel, .pStart, .pData true, .pCompleted, .pData true, .pCompleted,
+      .pW .get, .pW (.ret true), .pW .notify]
+    (fun s => (s.p == .done) && s.bl.closedW && (s.starts == [])) = true := by decide
+end Ex
 
 end BB.C07
